@@ -71,6 +71,45 @@ theorem convObjects_structure (c : Bool) (env : List SDecl) (hu : NamesUnique en
       · obtain ⟨o0, hm, rest⟩ := hall o' ho'
         exact ⟨o0, List.mem_cons_of_mem _ hm, rest⟩
 
+/-- methods: `addmethods` converts every declared method's signature to its renamed original -/
+theorem convMethods_structure (c : Bool) (env : List SDecl) (hu : NamesUnique env) (fuel : Nat)
+    (ms ms' : List (String × CTy)) (st st' : St) (hc : CacheOK env st) (hi : Inv env [] st)
+    (h : convMethods c env fuel st ms = some (st', ms')) :
+    Inv env [] st' ∧ CacheOK env st' ∧
+    Rel2 (fun m m' => m'.1 = m.1 ∧ Closed env st' m.2 ∧ m'.2 = rename (rho env st') m.2) ms ms' := by
+  obtain ⟨_, k, i, r⟩ := convMethods_sound c env hu fuel ms st st' ms' h hc hi
+  exact ⟨i, k, r⟩
+
+/-- `Converter.Package` as a whole: whatever objects it returns are the renamed originals in the
+    final state (after the deferred methods were added), every type name reached has a complete fork
+    declaration, nothing is left pending, and nothing that an earlier `Package` call established is lost -/
+theorem convPackage_structure (c : Bool) (env : List SDecl) (hu : NamesUnique env) (fuel : Nat) (st st' : St)
+    (objs os : List Obj) (hi : Inv env [] st) (h : convPackage c env fuel st objs = some (st', os)) :
+    Le st st' ∧ Inv env [] st' ∧ CacheOK env st' ∧ st'.toadd = [] ∧
+    ∀ o' ∈ os, ∃ o ∈ objs, o'.kind = o.kind ∧ o'.name = o.name ∧ Closed env st' o.ty ∧
+      o'.ty = rename (rho env st') o.ty ∧ ∀ n, unfoldF st'.fdecls n o'.ty = unfoldS env n o.ty := by
+  unfold convPackage at h
+  have hc0 : CacheOK env { st with cache := [] } := by intro a a' hm; simp at hm
+  have hi0 : Inv env [] { st with cache := [] } := inv_of_eq (st := st) (st' := { st with cache := [] }) rfl rfl hi
+  obtain ⟨l1, k1, i1, hall⟩ := convObjects_structure c env hu fuel objs { st with cache := [] } hc0 hi0
+  generalize hr : convObjects c env fuel { st with cache := [] } objs = r at h l1 k1 i1 hall
+  obtain ⟨st1, os1⟩ := r
+  simp only at h l1 k1 i1 hall
+  cases hd : drain c env fuel fuel st1 with
+  | none => rw [hd] at h; cases h
+  | some st2 =>
+    rw [hd] at h
+    simp only [Option.some.injEq, Prod.mk.injEq] at h
+    obtain ⟨rfl, rfl⟩ := h
+    obtain ⟨l2, k2, i2, t2⟩ := drain_sound c env hu fuel fuel st1 st2 hd k1 i1
+    refine ⟨((le_of_scope_eq (st := st) (st' := { st with cache := [] }) rfl).trans l1).trans l2, i2, k2, t2, ?_⟩
+    intro o' ho'
+    obtain ⟨o, hm, e1, e2, cl, er, _⟩ := hall o' ho'
+    obtain ⟨cl2, er2⟩ := closed_le l2 cl
+    refine ⟨o, hm, e1, e2, cl2, by rw [er, er2], fun n => ?_⟩
+    rw [er, ← er2]
+    exact unfold_eq i2 n o.ty cl2
+
 /-- `conv_memo_transparent`: an answer of the memo table is exactly what the converter without memo
     table computes for that type in the same state, and that recomputation changes neither the
     scope, nor the declarations, nor the pending methods. -/
